@@ -50,7 +50,7 @@ pub fn run(_sub: &str, opts: &Opts, w: &mut dyn Write) {
         r4.push(memory_read_byte(p, 0x4000).to_string());
         ra.push(memory_read_byte(p, 0xa000).to_string());
       }
-      writeln!(w, "c12 type={} rom={} ram={} ws={} | rb={} mb={} r0={} r4={} ra={}", t, r, m, ws.join(";"),
+      writeln!(w, "c12 type={} rom={} ram={} banks={} ramb={} ws={} | rb={} mb={} r0={} r4={} ra={}", t, r, m, rom_bank_count(r), header(t, r, m).get_ram_size_bytes(), ws.join(";"),
         rb.join(","), mb.join(","), r0.join(","), r4.join(","), ra.join(",")).unwrap();
     }
   }}}
